@@ -563,9 +563,9 @@ pub fn check_proxy(run: &mut Run) {
     if on("C07") {
         for (name, _t, v) in run.observations.iter() {
             if name == "audit_map_len" && v.as_u64().unwrap_or(0) != 0 {
-                let any_vanished = conns.iter().any(|(_, cq, crq)| crq.connected && (cq.reqs.is_empty() || cq.close != "normal"));
-                let tag = if any_vanished { " [source port reused after a client vanished before the proxy consumed its record]" } else { "" };
-                viol.push(("C07".into(), format!("attribution record left unconsumed after its connection was accepted{}", tag), format!("{} record(s) in the audit map at a quiescent point", v)));
+                // (the listed finding about port reuse after a vanished client never leaves a record behind - each accepted
+                // connection consumes whatever record its port has - so a leftover record is never explained by it)
+                viol.push(("C07".into(), "attribution record left unconsumed after its connection was accepted".into(), format!("{} record(s) in the audit map at a quiescent point", v)));
             }
         }
     }
